@@ -115,7 +115,7 @@ def _unit(u, build=True):
     if k == "srv1":
         from spacepackets.ecss import pus_1_verification as S
         sw, ew = ops_srv1._widths(p)
-        up = S.UnpackParams(len(p["stamp"]), sw, ew)
+        up = ops_srv1.unpack_params(len(p["stamp"]), sw, ew)
 
         def d(b):
             x = S.Service1Tm.unpack(b, up)
@@ -224,7 +224,7 @@ def _entry(ep, par):
         return lambda b: c.unpack(b, par["tslen"])
     if ep == "srv1":
         from spacepackets.ecss import pus_1_verification as S
-        return lambda b: S.Service1Tm.unpack(b, S.UnpackParams(par["tslen"], par["stepw"], par["errw"]))
+        return lambda b: S.Service1Tm.unpack(b, ops_srv1.unpack_params(par["tslen"], par["stepw"], par["errw"]))
     if ep == "reqid":
         from spacepackets.ecss.req_id import RequestId
         return RequestId.unpack
@@ -317,7 +317,8 @@ def op_sfx_foreign(a):
 def op_rob_decode(a):
     def run():
         fn = _entry(a["ep"], a["par"])
-        r = fn(bytes(a["octets"]))
+        from .core import rxbuf
+        r = fn(rxbuf(a["octets"]))          # bytes, bytearray or a read-only window (memoryview)
         if r is None and a["ep"] in ("fac",):
             return {"exc": "value"}       # the factory's documented "not a known directive" answer
         return {"ok": 1}
